@@ -57,7 +57,11 @@ pub fn filter(kind: u8, variant: u8) -> (Filter, &'static str, Option<String>) {
             let tags: Vec<String> = match variant {
                 0 => vec!["alltalk".into()],
                 1 => vec!["a".into(), "b".into(), "c".into()],
-                _ => vec![],
+                2 => vec![],
+                // blank tags: a list is written as its elements joined by commas, whatever they are
+                3 => vec!["".into()],
+                4 => vec!["".into(), "ctf".into(), "".into(), "alltalk".into()],
+                _ => vec!["".into(), "".into()],
             };
             let joined = if tags.is_empty() { None } else { Some(tags.join(",")) };
             (Filter::HasTags(tags), "gametype", joined)
@@ -76,7 +80,8 @@ pub fn filter(kind: u8, variant: u8) -> (Filter, &'static str, Option<String>) {
 
 pub fn n_variants(kind: u8) -> u8 {
     match kind {
-        1 | 6 | 7 | 8 | 9 | 10 | 12 | 17 => 3,
+        8 => 6,
+        1 | 6 | 7 | 9 | 10 | 12 | 17 => 3,
         _ => 2,
     }
 }
@@ -454,6 +459,19 @@ impl Prop for C16 {
                             Outcome::Ok(list) => ctx.violation("singular-query", &[len as u32, tail as u32], shape, clip(&format!("{} requests; {list:?}", sends.len()), 300), clip(&format!("1 request seeded 0.0.0.0:0; {expected:?}"), 300), render_log(&x.log)),
                             other => ctx.violation("singular-query", &[len as u32, tail as u32], shape, other.describe_json(), "Ok(first page)", render_log(&x.log)),
                         }
+                    }
+                }
+                // the free function `query` (complete query against the built-in master address): two pages, terminator on the second
+                {
+                    let pages = vec![vec![entry(1), entry(2)], vec![entry(3), TERMINATOR]];
+                    let expected: Vec<(IpAddr, u16)> = [entry(1), entry(2), entry(3)].iter().map(|e| (IpAddr::V4(e.0), e.1)).collect();
+                    let x = run_query(Box::new(MasterServer::new(pages)), Box::new(Faithful), Chooser::new(&[]), || gamedig::valve_master_server::query(Region::Asia, Some(SearchFilters::default())));
+                    ctx.account(&x, 0);
+                    let sends = all_sends(&x.log);
+                    let seeds: Vec<String> = sends.iter().map(|(_, r, _)| parse_request(r).map(|p| p.seed).unwrap_or_default()).collect();
+                    let ok = matches!(&x.outcome, Outcome::Ok(l) if *l == expected) && seeds == vec!["0.0.0.0:0".to_string(), format!("{}:{}", entry(2).0, entry(2).1)];
+                    if !ok {
+                        ctx.violation("free-function-query", &[], "valve_master_server::query over two pages", clip(&format!("{}; seeds {seeds:?}", x.outcome.describe_json()), 400), clip(&format!("{expected:?}; seeds 0.0.0.0:0 then the last address of page 1"), 400), render_log(&x.log));
                     }
                 }
                 ctx.sample(serde_json::json!({"case": label}));
